@@ -3,6 +3,7 @@ Snapping lemmas: `__vector_snap_closest`, `__vector_snap_manhattan`, `__vector_s
 proper box and return a point of its outline.
 -/
 import Capella.Lemmas.GeomBasic
+import Capella.Lemmas.GeomLit
 
 namespace Capella.Geom
 /-- `__vector_snap_closest`: for a proper box, no error and a point of the outline -/
@@ -518,9 +519,9 @@ theorem sub_eq_zero_iff (p s : V2) : p - s = ⟨0, 0⟩ ↔ p = s := by
 /-- oblique and Manhattan snapping: total, on the outline -/
 theorem vectorSnap_spec (b : Box) (p s : V2) (st : Style) (hw : 0 < b.size.x) (hh : 0 < b.size.y)
     (hst : st ≠ .tree) : ∃ q, vectorSnap b p s st = .ok q ∧ onOutline b q := by
+  rw [vectorSnap_eq]
   cases st with
   | oblique =>
-    unfold vectorSnap
     simp only
     split_ifs
     · exact snapClosest_spec b p hw hh
